@@ -96,7 +96,7 @@ func run(c *wk.Ctx) {
 
 func runCase(c *wk.Ctx, i int) {
 	r := c.Rand(i)
-	os := model.RandomOptions(r, model.OptConstraints{})
+	os := model.RandomOptions(r, model.OptConstraints{NonInjective: true})
 	if r.Intn(3) == 0 {
 		// make trivial moves likely: large grand-parent overlap allowance
 		os.O.CompactionGPOverlapsFactor = 100
